@@ -36,7 +36,10 @@ def step (line : String) : String :=
               | none =>
                 match smsOp op args with
                 | some r => r
-                | none => "bad-op"
+                | none =>
+                  match smsSpecOp op args with
+                  | some r => r
+                  | none => "bad-op"
 
 partial def loop (h : IO.FS.Stream) (out : IO.FS.Stream) : IO Unit := do
   let line ← h.getLine
